@@ -40,6 +40,35 @@ def fen_clock_guard(ctx):
                 for x in leaves(d):
                     if x[0] == "call" and x[1].endswith("core::str::<str>::parse"):
                         return True
+    # the same test written through an iterator: a closure of from_str parses the field as u32 (str::parse::<u32> or
+    # u32::from_str) and the Err return depends on a call (`any`, `all`, `find` ...) that is given that closure
+    def parses_u32(g):
+        for bb in g["blocks"]:
+            t = bb["term"]
+            if t["k"] == "call":
+                k = t["callee"].get("key") or ""
+                if (k.endswith("core::str::<str>::parse") and "u32" in t["callee"].get("generic_args", [])) or "u32 as" in k and k.endswith("FromStr>::from_str") or k.endswith("<impl FromStr for u32>::from_str") or ("from_str" in k and "u32" in k):
+                    return True
+        return False
+    fs = _fns_with_closures(prog, FEN_FROM_STR)
+    if fs:
+        f = fs[0]
+        parsing = {g["key"] for g in fs[1:] if parses_u32(g)}
+        # closures nested one level deeper (filter_map(..).any(..))
+        for g in list(fs[1:]):
+            for k2 in prog.children(g["key"]):
+                if prog.fns[k2]["kind"] == "closure" and parses_u32(prog.fns[k2]):
+                    parsing.add(k2); parsing.add(g["key"])
+        if parsing:
+            cfg, ex = Cfg(f), Exprs(f)
+            for b in cfg.reach:
+                for s in f["blocks"][b]["stmts"]:
+                    d = s["dst"]
+                    if d is not None and d["l"] == 0 and not d["p"] and B.ret_kind_of_rv(s["rv"]) == "Err":
+                        for (a, sb) in cfg.control_deps_transitive(b):
+                            t = f["blocks"][a]["term"]
+                            if t["k"] == "switch" and any(x[0] == "agg" and x[1] == "closure" and x[2] in parsing for x in leaves(ex.operand(t["discr"]))):
+                                return True
     return False
 
 
